@@ -9,12 +9,16 @@ use std::sync::Arc;
 pub fn tree_src() -> Vec<Entry> {
     vec![
         Entry::dir("src"),
-        Entry::file("src/big", "0123456789ab").mode(0o640).mtime(1_300_000_000, 11),
+        Entry::gen("src/big", 10000, 12).mode(0o640).mtime(1_300_000_000, 11),
         Entry::file("src/small", "xy").mode(0o755).mtime(1_300_000_001, 22),
         Entry::dir("src/d"),
         Entry::file("src/d/n", "nested").mode(0o600).mtime(1_300_000_002, 33),
         Entry::link("src/l", "small"),
         Entry::new("src/p", Kind::Fifo).mode(0o644),
+        // every kind of regular file takes its own path through the drivers: empty, one byte, sparse
+        Entry::file("src/empty", "").mode(0o604).mtime(1_300_000_003, 44),
+        Entry::file("src/one", "1").mode(0o606).mtime(1_300_000_004, 55),
+        Entry::new("src/sparse", Kind::File(crate::scen::Content::Layout { unit: 4096, units: vec![true, false, true], tail: 0, seed: 9 })).mode(0o660).mtime(1_300_000_005, 66),
     ]
 }
 
@@ -23,7 +27,7 @@ pub fn scenarios(quick: bool) -> Vec<Scenario> {
     for d in drivers() {
         for w in if quick { vec![2] } else { vec![1, 2] } {
             let ws = w.to_string();
-            v.push(Scenario::new(&format!("C04-fresh-{}-w{}", d, w), tree_src(), &["-r", "--fsync", "--driver", d, "-w", &ws, "--block-size", "4", "src", "dst"]));
+            v.push(Scenario::new(&format!("C04-fresh-{}-w{}", d, w), tree_src(), &["-r", "--fsync", "--driver", d, "-w", &ws, "--block-size", "4096", "src", "dst"]));
             let mut t = tree_src();
             t.extend(vec![
                 Entry::dir("dst"),
@@ -33,7 +37,8 @@ pub fn scenarios(quick: bool) -> Vec<Scenario> {
                 Entry::dir("dst/d"),
                 Entry::file("dst/d/n", "old nested").mtime(1_200_000_003, 4),
             ]);
-            v.push(Scenario::new(&format!("C04-populated-{}-w{}", d, w), t, &["-r", "-T", "--fsync", "--backup", "numbered", "--driver", d, "-w", &ws, "--block-size", "4", "src", "dst"]));
+            v.push(Scenario::new(&format!("C04-reflinked-{}-w{}", d, w), tree_src(), &["-r", "--fsync", "--driver", d, "-w", &ws, "--block-size", "4096", "src", "dst"]));
+            v.push(Scenario::new(&format!("C04-populated-{}-w{}", d, w), t, &["-r", "-T", "--fsync", "--backup", "numbered", "--driver", d, "-w", &ws, "--block-size", "4096", "src", "dst"]));
         }
     }
     v
@@ -97,7 +102,10 @@ pub fn fault_jobs(ctx: &Ctx, scens: &[Scenario]) -> (Vec<(Arc<Scenario>, RunSpec
     let mut errs = vec![];
     for s in scens {
         let sa = Arc::new(s.clone());
-        for base in base_specs() {
+        for mut base in base_specs() {
+            if s.name.contains("reflinked") {
+                base.faults.push(Fault { call: "ioctl:FICLONE".into(), thread: None, nth: None, path_contains: None, action: Action::EmulateOk });
+            }
             let rec = match w.run(s, &base) {
                 Ok(r) => r,
                 Err(e) => {
